@@ -97,6 +97,13 @@ func legEntry(c *Ctx) {
 			pats = append(pats, patCase{pat: s, o: o, alpha: []rune("ab1c")}, patCase{pat: s, o: o, cg: true, alpha: []rune("ab1")})
 		}
 	}
+	// balancing groups whose popped group keeps an earlier capture, in both directions: Replace with ${name} enumerates its
+	// matches through its own loop and must report the captures every other entry point reports
+	for _, s := range []string{`(?<-o>a)+(?<o>b)+`, `(?<x-o>a)+(?<o>b)+`, `(?<o>b)+(?<-o>a)+`, `(?<o>b)+(?<x-o>a)+c?`, `(?:(?<o>b)|(?<-o>a))+`} {
+		for _, o := range []Opts{{}, {RTL: true}} {
+			pats = append(pats, patCase{pat: s, o: o, alpha: []rune("ab-")}, patCase{pat: s, o: o, alpha: []rune("abc")})
+		}
+	}
 	classes := map[string]int{}
 	for _, p := range pats {
 		if c.Rng.Chance(8) {
